@@ -531,6 +531,46 @@ pub fn reference_curve_cases(spec: &PathSpec, n: usize, dev: f64, id0: usize) ->
     out
 }
 
+/// points of the elliptic arc selected by an SVG endpoint-form arc (implementation notes F.6.5 / F.6.6), computed
+/// here in f64 without lyon: m + 1 points from `from` to `to`; also returns the larger (possibly scaled) radius
+pub fn svg_arc_reference(from: (f64, f64), to: (f64, f64), rx: f64, ry: f64, phi: f64, large: bool, sweep: bool, m: usize) -> (Vec<(f64, f64)>, f64) {
+    let (mut rx, mut ry) = (rx.abs(), ry.abs());
+    let (cp, sp) = (phi.cos(), phi.sin());
+    let (dx, dy) = ((from.0 - to.0) / 2.0, (from.1 - to.1) / 2.0);
+    let (x1, y1) = (cp * dx + sp * dy, -sp * dx + cp * dy);
+    let lam = x1 * x1 / (rx * rx) + y1 * y1 / (ry * ry);
+    if lam > 1.0 {
+        rx *= lam.sqrt();
+        ry *= lam.sqrt();
+    }
+    let num = rx * rx * ry * ry - rx * rx * y1 * y1 - ry * ry * x1 * x1;
+    let den = rx * rx * y1 * y1 + ry * ry * x1 * x1;
+    let mut coef = (num / den).max(0.0).sqrt();
+    if large == sweep {
+        coef = -coef;
+    }
+    let (cxp, cyp) = (coef * rx * y1 / ry, -coef * ry * x1 / rx);
+    let (cx, cy) = (cp * cxp - sp * cyp + (from.0 + to.0) / 2.0, sp * cxp + cp * cyp + (from.1 + to.1) / 2.0);
+    let ang = |ux: f64, uy: f64, vx: f64, vy: f64| -> f64 { (ux * vy - uy * vx).atan2(ux * vx + uy * vy) };
+    let (ux, uy) = ((x1 - cxp) / rx, (y1 - cyp) / ry);
+    let (vx, vy) = ((-x1 - cxp) / rx, (-y1 - cyp) / ry);
+    let th1 = ang(1.0, 0.0, ux, uy);
+    let mut dth = ang(ux, uy, vx, vy);
+    if !sweep && dth > 0.0 {
+        dth -= std::f64::consts::TAU;
+    }
+    if sweep && dth < 0.0 {
+        dth += std::f64::consts::TAU;
+    }
+    let pts = (0..=m)
+        .map(|i| {
+            let th = th1 + dth * i as f64 / m as f64;
+            (cx + rx * th.cos() * cp - ry * th.sin() * sp, cy + rx * th.cos() * sp + ry * th.sin() * cp)
+        })
+        .collect();
+    (pts, rx.max(ry))
+}
+
 fn to64(e: &[(Point, Point)]) -> Vec<((f64, f64), (f64, f64))> {
     e.iter().map(|(a, b)| ((a.x as f64, a.y as f64), (b.x as f64, b.y as f64))).collect()
 }
@@ -737,6 +777,62 @@ pub fn main_c03(args: &Args) -> std::io::Result<()> {
                 }
             }
             st.fail(jobj(&fields));
+        }
+        // ---- an SVG arc and its chord as a closed sub-path (Path::svg_builder().arc_to), against the arc computed
+        // independently of lyon from the SVG implementation notes (F.6.5 / F.6.6), in f64
+        {
+            use lyon_path::traits::SvgPathBuilder;
+            let a = point(rng.range(-10, 10) as f32, rng.range(-10, 10) as f32);
+            let mut c = point(rng.range(-10, 10) as f32, rng.range(-10, 10) as f32);
+            if (c - a).length() < 2.0 {
+                c.x += 5.0;
+            }
+            let chord = (c - a).length();
+            let (rx, ry) = match it % 4 {
+                0 => (chord * (0.6 + rng.unit_f64() as f32), chord * (0.6 + rng.unit_f64() as f32)),
+                1 => (chord * 0.3, chord * 0.2), // too small: scaled up
+                2 => (chord * 0.75, chord * 0.75),
+                _ => (2.0 + rng.below(20) as f32, 2.0 + rng.below(20) as f32),
+            };
+            let rot = if it % 3 == 0 { 0.0 } else { rng.range(-6, 6) as f32 * 0.25 };
+            let (large, sweep) = ((it / 4) % 2 == 0, (it / 8) % 2 == 0);
+            let atol = *rng.pick(&[0.5f32, 0.1, 0.02]);
+            let aopts = FillOptions::tolerance(atol).with_fill_rule(rule);
+            let alabel = format!("M {:?} A {} {} {} {} {} {:?} Z tol {} {:?}", a, rx, ry, rot, large as u8, sweep as u8, c, atol, rule);
+            st.inc("evaluations");
+            st.inc("svg_arc_segments");
+            let r = catch(AssertUnwindSafe(|| {
+                let mut b = lyon_path::Path::svg_builder();
+                b.move_to(a);
+                b.arc_to(vector(rx, ry), Angle::radians(rot), lyon_path::ArcFlags { large_arc: large, sweep }, c);
+                b.close();
+                let path = b.build();
+                let mut buffers: VertexBuffers<Point, u32> = VertexBuffers::new();
+                let ok = FillTessellator::new()
+                    .tessellate_path(&path, &aopts, &mut lyon_tessellation::geometry_builder::BuffersBuilder::new(&mut buffers, lyon_tessellation::geometry_builder::Positions))
+                    .is_ok();
+                (ok, buffers)
+            }));
+            match r {
+                None | Some((false, _)) => st.fail(jobj(&[("what", jstr("filling an SVG arc segment failed or panicked")), ("input", jstr(&alabel))])),
+                Some((true, buffers)) => {
+                    let tris: Vec<(u32, u32, u32)> = buffers.indices.chunks(3).map(|t| (t[0], t[1], t[2])).collect();
+                    st.note_case(&alabel, !tris.is_empty());
+                    let m = 1440;
+                    let (pts, rmax) = svg_arc_reference((a.x as f64, a.y as f64), (c.x as f64, c.y as f64), rx as f64, ry as f64, rot as f64, large, sweep, m);
+                    let mut exact: Vec<((f64, f64), (f64, f64))> = pts.windows(2).map(|w| (w[0], w[1])).collect();
+                    exact.push((*pts.last().unwrap(), pts[0]));
+                    let poly_err = rmax * (1.0 - (std::f64::consts::PI / m as f64).cos()) + 1e-4 * (1.0 + rmax);
+                    if let Some(msg) = direct_coverage(&exact, &buffers.vertices, &tris, rule, atol as f64 * (1.0 + 1.0 / 64.0) + poly_err + 1e-4, &mut rng, true) {
+                        let mut fields = vec![("what", jstr(&format!("the fill of an SVG arc segment is off by more than the tolerance: {}", msg))), ("input", jstr(&alabel))];
+                        let mut r3 = Rng::new(9);
+                        if direct_coverage(&exact, &buffers.vertices, &tris, rule, atol as f64 * 1.5 + 0.0035 * rmax + poly_err + 1e-4, &mut r3, true).is_none() {
+                            fields.push(("class", jstr("K15")));
+                        }
+                        st.fail(jobj(&fields));
+                    }
+                }
+            }
         }
         // path-level helpers: add_circle / add_ellipse / add_rounded_rectangle / add_rectangle through the fill builder
         if it % 3 == 0 {
